@@ -41,7 +41,7 @@ RULE = ("Bounded-exhaustive over every (domain, opset version N, method) of the 
         "omitted attributes arrive absent/None/equal to the schema default. Opset.__contains__/__getitem__/__getattr__ "
         "and values.Op(opset, name) (the translator's lookup) give the same schema as the static method. ORT leg: each "
         "single-node onnx backend node test is called eagerly through opsetN.<Op> with exactly the node's attributes and "
-        "compared with the bare node on onnxruntime. Non-trivial = operator has >=1 attribute or optional/variadic input; "
+        "compared with the bare node on onnxruntime (quick tier: only nodes that leave >=1 schema default out). Non-trivial = operator has >=1 attribute or optional/variadic input; "
         "distinct by (domain, op, N).")
 ASSUMPTIONS = ["onnx.defs (get_schema / get_all_schemas_with_history) of the installed onnx is the specification of the schemas",
                "inspect.signature and object identity of the recorded arguments are faithful observations of the generated code",
@@ -256,7 +256,7 @@ def _token(kind, i):
 def _attr_value(idx, typename):
     h = onnx.helper
     single = {
-        "FLOAT": lambda: 0.25 + idx, "INT": lambda: 7 + idx, "STRING": lambda: f"s{idx}",
+        "FLOAT": lambda: 0.25 + idx, "INT": lambda: 1000003 + idx, "STRING": lambda: f"s{idx}",
         "TENSOR": lambda: h.make_tensor(f"t{idx}", onnx.TensorProto.FLOAT, [1], [float(idx)]),
         "SPARSE_TENSOR": lambda: onnx.SparseTensorProto(dims=[idx + 1]),
         "GRAPH": lambda: onnx.GraphProto(name=f"g{idx}"),
@@ -675,6 +675,9 @@ def check_call(d, n, m, desc, v, sigbad=None):
                     where_else = [k for k, x in got_at.items() if x is passed[name]]
                     out.append((pre + f"forward-attr:{tag}", f"{m}: attribute {name} passed as {passed[name]!r} arrives at {where} as "
                                                              f"{got_at.get(name, '<absent>')!r}" + (f"; the value arrives as {where_else}" if where_else else "")))
+            elif name in got_at and got_at[name] is not None and any(got_at[name] is x for x in passed.values()):
+                src = [k for k, x in passed.items() if x is got_at[name]]
+                out.append((pre + f"forward-attr:{tag}", f"{m}: attribute {name} not passed, but the value passed for {src} arrives under {name} at {where}"))
             elif name in got_at and got_at[name] is not None:
                 r = same_default(got_at[name], a["default"]) if a["has_default"] else f"{got_at[name]!r} vs no schema default"
                 if r and r != "f32":
@@ -692,7 +695,7 @@ def _show_inputs(vals, full):
 
 
 # ----------------------------------------------------------------------------- ORT leg
-def check_ort(name):
+def check_ort(name, only_with_defaults_left_out=False):
     """-> (verdicts, status, classes, key, nontrivial).  status: "ok" or a skip reason."""
     from onnxscript import evaluator, tensor
 
@@ -734,6 +737,8 @@ def check_ort(name):
             return [], "ort:input-without-data", [], None, False
     desc = describe(spec)
     omitted = [a for a in desc["attrs"] if a["has_default"] and a["name"] not in attrs]
+    if only_with_defaults_left_out and not omitted:
+        return [], "ort:node-leaves-no-schema-default-out(executed in the thorough tier only)", [], None, False
     bare = onnx.ModelProto()
     bare.CopyFrom(model)
     for x in bare.opset_import:
@@ -788,7 +793,7 @@ def check_ort(name):
 
 # ----------------------------------------------------------------------------- plan / run
 def plan(tier, seed, budget):
-    drawn = max(1, int((12 if tier == "quick" else 200) * budget))
+    drawn = max(1, int((12 if tier == "quick" else 300) * budget))
     return [{"part": i, "parts": SHARDS, "drawn": drawn, "base_seed": int(seed)} for i in range(SHARDS)]
 
 
@@ -804,7 +809,7 @@ def _excluded(d, m, n):
     return None
 
 
-def run_unit(col, unit, drawn, base_seed):
+def run_unit(col, unit, drawn, base_seed, tier="thorough"):
     kind, d, n, name = unit
     oc = f"opset:{_dom(d)}/{n:02d}"
     if kind == "opset":
@@ -829,7 +834,7 @@ def run_unit(col, unit, drawn, base_seed):
             col.violation(b, det, {"unit": "missing", "domain": d, "version": n, "name": name}, size=n)
         return
     if kind == "ort":
-        verdicts, status, classes, key, nt = check_ort(name)
+        verdicts, status, classes, key, nt = check_ort(name, only_with_defaults_left_out=(tier == "quick"))
         if status != "ok":
             col.skip(status)
             return
@@ -890,7 +895,7 @@ def run_shard(spec):
     col = Collector()
     units = all_units()[spec["part"]::spec["parts"]]
     for u in units:
-        run_unit(col, u, spec["drawn"], spec["base_seed"])
+        run_unit(col, u, spec["drawn"], spec["base_seed"], spec.get("tier", "quick"))
         col.extra["units_done"] = col.extra.get("units_done", 0) + 1
         col.extra.setdefault("units_by_kind", {})
         col.extra["units_by_kind"][u[0]] = col.extra["units_by_kind"].get(u[0], 0) + 1
